@@ -34,7 +34,7 @@ PLAN = dict(
     ),
 )
 TEXT = dict(
-    technique="property-based testing: generated reductions / scans / sorts x generated schedules over the real scheduler (controlled scheduler, SC+TSO) with a free-monoid value type that records the exact operand order, a parenthesisation-recording operation for the deterministic reduce, and sorted-permutation checks; plus rapidcheck over the quicksort range split",
+    technique="property-based testing: generated reductions / scans / sorts x generated schedules over the real scheduler (controlled scheduler, SC+TSO) with a free-monoid value type that records the exact operand order, a parenthesisation-recording operation for the deterministic reduce, and sorted-permutation checks; plus rapidcheck over the quicksort range split, and rapidcheck over the real reduce / deterministic_reduce / scan templates and partitioners compiled against a mock runtime whose steal schedule is a generated value",
     level_text="Exploration: every generated operation runs on the real work-stealing runtime while a generated schedule decides which subranges are stolen and therefore where bodies are split. parallel_reduce must return exactly [begin,end) in order (vector concatenation is associative but not commutative), a Body may only be joined into the Body it was split from, never while either is inside operator(), never twice; parallel_deterministic_reduce must produce the identical '(L R)' tree string in every run of a case (one-slot arena, max_allowed_parallelism 1, all workers, second arena), with operands in order; every final pass of parallel_scan must see exactly the prefix [begin,i) and every index gets exactly one final pass, the returned value is the full sequence; parallel_sort must leave a sequence that is sorted under the comparator and whose (key,id) multiset equals the input's. Sampling, not exhaustive.",
     level_note=DET_NOTE,
 )
